@@ -83,6 +83,8 @@ class Eval:
             a = self.ev(t[2])
             if t[1] == "Not":
                 w = self.width_of(t[2])
+                if len(t) > 3 and t[3]:
+                    w = 1 if t[3] == "bool" else INT_TYS.get(t[3], w)
                 if w == 1:
                     return 1 - (a & 1)
                 return (~a) & ((1 << w) - 1)
